@@ -114,9 +114,10 @@ class ConfigList(ComposedNode, list):
 
     def insert(self, index, value):
         index = self._validate_index(index, strict=False)
-        self._children = { ((idx+1) if idx >= index else idx): value for idx, value in self._children.items() }
-        value = ComposedNode.ayns.set_child(self, index, value)
+        value = ComposedNode.ayns.set_child(self, len(self), value)
         list.insert(self, index, value)
+        # renumber the children so that the child map lists them in the same order as the list itself
+        self._children = { idx: child for idx, child in enumerate(list.__iter__(self)) }
 
     if not utils.python_is_at_least(3, 7):
         # for python < 3.7 (i.e., 3.6 and older)
